@@ -22,7 +22,10 @@ CFG = {
                  "after every render, include and component; every accepted set is rendered whole, by every block and by every component, and "
                  "operator / syntax-form / filter / filter-kwarg / test / function templates are rendered over the full product of a 38-value pool "
                  "(every kind, bytes incl. invalid UTF-8, i128/u128 extremes, NaN/+-inf, Undefined inside maps and arrays, depth-64 nesting): "
-                 "outcome must be text that re-validates as UTF-8 or an error value, never a panic. UNK — 570+ (reference kind x syntactic site) "
+                 "outcome must be text that re-validates as UTF-8 or an error value, never a panic. REC — 14 programs that recurse without bound unless the "
+                 "component depth guard stops them (self / mutual / component->include->component / body including the caller / through super(), blocks, "
+                 "set-capture, filter section, kwargs) are rendered (every template, block and component) in a CHILD PROCESS with a 30 s limit: each must "
+                 "end in an error value; death by signal (stack overflow) or timeout is a violation. UNK — 570+ (reference kind x syntactic site) "
                  "templates with a name nobody registered must be rejected by add_raw_templates and render_str; an accepted one must not fail at "
                  "render time with a not-registered/not-found error or a panic.",
     "trusted_base": TB_COMMON + [
@@ -41,10 +44,13 @@ CFG = {
     "assumptions": [
         "world_respects: a name listed in the registry record is never `not registered` for the model's lookup functions (the record is the engine's registry, confirmed by probing)",
         "format_is_utf8 is a code-point level statement about the model of Value::format; the byte level (UTF-8 encoding of each scalar) is Rust's String invariant",
-        "compile_always_checks is proved only for an expression fragment over a LOCAL port of compile_expr (Proofs/CompileChecks.v, "
-        "C07_compile_always_checks_partial: constants, variables, attribute/subscript, unary/binary operators, and/or, ternary, "
-        "filters/tests/functions without kwargs); the shared compiler port lives on another branch; for statements, kwargs, literals, "
-        "comprehensions and component calls the validator is instead run on every real chunk, every run",
+        "compile_always_checks (C07_compile_always_checks, C07_compiled_code_sound) is proved for the whole statement language of the shared compiler "
+        "port Model/Compile.v (tied to the real compiler by C03's `compile` family) under its well-formedness predicate wf_body (break/continue only "
+        "inside a for body and not across a capture: what the parser enforces); the statement is `exists tbl, check_table (compile ss) a_empty tbl = true` "
+        "(any accepted table is sound: C07_table_sound), not that the `infer` heuristic finds it. Constructs Model/Compile.v lacks (subscripts, slices, "
+        "ternaries, arithmetic: covered by C07_compile_always_checks_partial over a local port; literals with elements, comprehensions, components, "
+        "blocks: not covered) are validated per real chunk, every run. Stability of the validator under Chunk::optimize is not proved; both the "
+        "before- and after-optimisation listing of every real chunk are validated instead",
     ],
 }
 
@@ -55,8 +61,9 @@ MANIFEST = (
     "Theorems: in a world whose chunks all pass check_chunk and refs_resolved (decidable; evaluated on the real chunks every run) no run of the VM model "
     "(whole template, block, component; any context, writer, nesting of include/component/block/super, any fuel) reaches a panic site of interpret() "
     "or TemplateNotFound, and normal termination leaves the three stacks as on entry (empty at the entry points); get_item/slice never index out of "
-    "bounds for any length/operand; Value::format and escape_html only emit input scalars or ASCII; for every tree of an expression fragment the "
-    "compiled `{{ e }}` chunk has an accepted table (partial compile_always_checks, local compiler port). Partial by nature: panics inside std / built-ins "
+    "bounds for any length/operand; Value::format and escape_html only emit input scalars or ASCII; for every well-formed statement list of the shared compiler port "
+    "Model/Compile.v the compiled chunk has an accepted table (compile_always_checks), hence compiled code of that language never underflows and ends "
+    "balanced (closed theorem about the compiler model); an expression fragment with subscripts/ternaries/arithmetic is covered over a local port. Partial by nature: panics inside std / built-ins "
     "and native stack exhaustion are observed (catch_unwind over ~400k renders per quick run), not proved.",
     "§6 C07",
 )
